@@ -119,11 +119,14 @@ func (db *RockDB) hSetField(ts int64, checkNX bool, hkey []byte, field []byte, v
 }
 
 func (db *RockDB) HLen(hkey []byte) (int64, error) {
+	return db.hLen(time.Now().UnixNano(), hkey, true)
+}
+
+func (db *RockDB) hLen(tn int64, hkey []byte, useLock bool) (int64, error) {
 	if err := checkKeySize(hkey); err != nil {
 		return 0, err
 	}
-	tn := time.Now().UnixNano()
-	oldh, expired, err := db.hHeaderMeta(tn, hkey, true)
+	oldh, expired, err := db.hHeaderMeta(tn, hkey, useLock)
 	if err != nil {
 		return 0, err
 	}
@@ -529,7 +532,7 @@ func (db *RockDB) HClear(ts int64, hkey []byte) (int64, error) {
 		defer tableIndexes.Unlock()
 	}
 
-	hlen, err := db.HLen(hkey)
+	hlen, err := db.hLen(ts, hkey, false)
 	if err != nil {
 		return 0, err
 	}
